@@ -683,6 +683,17 @@ theorem blockInvalid_ref (env : Env) (s : State) (sp sp' : Spec) (h : Ref env s 
           (fun _ _ => rfl) ?_ ⟨e0, he0⟩
         intro e' he' ht; rw [hk e' he'] at ht; cases ht
 
+/-- `panics`: BlockInvalid of a trusted block changes nothing -/
+theorem blockInvalid_panics (s : State) (hash : Bytes) (hp : panics s (keyOf hash) = true) :
+    blockInvalid s hash = (s, .panic) := by
+  unfold panics at hp
+  unfold blockInvalid
+  simp only
+  split at hp
+  · rename_i r hr
+    simp only [hr, hp, ↓reduceIte]
+  · cases hp
+
 /-- `forgets`: BlockInvalid takes the delete branch, the key leaves the index -/
 theorem blockInvalid_forgets (s : State) (hash : Bytes) (hf : forgets s (keyOf hash) = true) :
     AL.get (blockInvalid s hash).1.index (keyOf hash) = none := by
@@ -1135,6 +1146,10 @@ theorem step_ref (env : Env) (ok : EnvOK env) (s : State) (sp : Spec) (h : Ref e
         intro e' he'; rw [hsp] at he'; cases he'
       | some e0 =>
         simp only
+        by_cases hpn : panics s (keyOf hash) = true
+        · simp only [hpn, ↓reduceIte]
+          rw [blockInvalid_panics s hash hpn]; exact h
+        simp only [hpn, Bool.false_eq_true, ↓reduceIte]
         have htaint : Ref env (blockInvalid s hash).1 { isOpen := true, m := AL.set sp.m (keyOf hash) { e0 with tainted := true } } := by
           refine blockInvalid_ref env s sp _ h hash (hopn.trans ho).symm (fun k' hne => by simp only [AL.get_set, if_neg hne]) ?_
             (fun _ _ => ⟨_, by rw [AL.get_set, if_pos rfl]⟩)
